@@ -176,7 +176,19 @@ pub fn cases(ctx: &Ctx, section: &str, unit: u64) -> Vec<Case> {
                                     .collect();
                                 // an error gadget right after a declaration that is emitted once:
                                 // the diagnostic belongs to the last zz_err_ token of the gadget
-                                let gadget: Vec<String> = match pr.below(8) {
+                                let gadget: Vec<String> = match pr.below(11) {
+                                    8 => vec![format!(
+                                        "{indent}static const int zz_p1 = 1 zz_err_extra_token ;"
+                                    )],
+                                    9 => vec![
+                                        "static const int zz_p2 =".into(),
+                                        format!("{indent}( 1 + 2 zz_err_unclosed ;"),
+                                    ],
+                                    10 => vec![
+                                        "void zz_fn3 ( ) {".into(),
+                                        format!("{indent}if ( 1 zz_err_in_condition ) {{ }}"),
+                                        "}".into(),
+                                    ],
                                     0 => vec![format!(
                                         "{indent}static const int zz_g0 = zz_err_undeclared ;"
                                     )],
@@ -327,7 +339,7 @@ pub fn cases(ctx: &Ctx, section: &str, unit: u64) -> Vec<Case> {
                     execs: vec![ExecSpec::single(key(&mut rng), STACK_MAIN, sc.task.clone())],
                     params: Json::obj()
                         .with("file_index", Json::u(rng.below(1000)))
-                        .with("gadget", Json::u(rng.below(6)))
+                        .with("gadget", Json::u(rng.below(9)))
                         .with("variant_seed", Json::u(rng.next_u64() >> 12)),
                 });
             }
@@ -809,6 +821,9 @@ pub fn judge(case: &Case, rep: &mut Report) {
                 return;
             };
             let (gadget, err_line, err_col): (&str, u32, u32) = match case.params.gu("gadget") {
+                6 => ("static const int zz_p1 = 1 zz_err_extra_token ;", 0, 28),
+                7 => ("static const int zz_p2 =\n  ( 1 + 2 zz_err_unclosed ;", 1, 11),
+                8 => ("void zz_fn3 ( ) {\n if ( 1 zz_err_in_condition ) { }\n}", 1, 9),
                 0 => ("static const int zz_g0 = zz_err_undeclared ;", 0, 26),
                 1 => ("static const int zz_err_dup = 1 ;\n\nstatic const int zz_err_dup = 2 ;", 2, 18),
                 2 => ("void zz_fn ( ) {\nint zz_err_local = 1 ;\n  int zz_err_local = 2 ;\n}", 2, 7),
